@@ -41,7 +41,8 @@ CHECKS = {
         text='Lean 4 theorems over an arbitrary commutative ring and coefficient lists of any length: Horner evaluation, the in-place '
              'triangular re-centring transcribed sweep by sweep (eval (shift t0 a p) t = eval p (a t - t0), including the t0 = 0, a = 1 and '
              'single-coefficient fast paths), re-scaling, derivative arrays and evaluations of every order linked to Mathlib '
-             'Polynomial.derivative, order minimisation, the two-variable shift on rectangular arrays and the componentwise vector case. '
+             'Polynomial.derivative, order minimisation in one and two variables (trimming trailing zero rows and columns preserves the '
+             'polynomial), the two-variable shift on rectangular arrays and the componentwise vector case. '
              'The model runs in exact rationals and is compared with sarpy on generated inputs under a running-error bound.',
         design='DESIGN.md 6/C16',
         note='proved over commutative rings (hence R and Q); float64 rounding of the implementation is not proved - exact-rational '
